@@ -85,6 +85,10 @@ static int flushData(scpi_t * context) {
 static size_t writeDelimiter(scpi_t * context) {
     if (context->output_count > 0) {
         return writeData(context, ",", 1);
+    } else if (context->output_separator) {
+        /* first result of this unit and some previous unit already responded */
+        context->output_separator = FALSE;
+        return writeData(context, ";", 1);
     } else {
         return 0;
     }
@@ -132,10 +136,8 @@ static scpi_bool_t processCommand(scpi_t * context) {
     scpi_bool_t result = TRUE;
     scpi_bool_t is_query = context->param_list.cmd_raw.data[context->param_list.cmd_raw.length - 1] == '?';
 
-    /* conditionally write ; */
-    if(!context->first_output && is_query) {
-        writeData(context, ";", 1);
-    }
+    /* response unit separator ; is written together with the first result of this unit */
+    context->output_separator = !context->first_output;
 
     context->cmd_error = FALSE;
     context->output_count = 0;
@@ -158,6 +160,13 @@ static scpi_bool_t processCommand(scpi_t * context) {
                 }
             }
         }
+    }
+
+    context->output_separator = FALSE;
+
+    /* response data were written, terminate the response message even if the command failed later */
+    if (context->output_count > 0) {
+        context->first_output = FALSE;
     }
 
     /* set error if command callback did not read all parameters */
